@@ -103,6 +103,9 @@ type MultiEndpointOptions struct {
 
 // NewMultiEndpoint validates options and creates a new [MultiEndpoint].
 func NewMultiEndpoint(b *MultiEndpointOptions) (MultiEndpoint, error) {
+	if b == nil {
+		return nil, fmt.Errorf("MultiEndpointOptions must not be nil")
+	}
 	if len(b.Endpoints) == 0 {
 		return nil, fmt.Errorf("endpoints list cannot be empty")
 	}
